@@ -902,11 +902,34 @@ partial def groupsOk (n : Nat) (hs : List HCall) : Option (String × String) :=
         some ("hook-args", s!"{name}: listeners saw different arguments")
       else groupsOk n (hs.drop n)
 
+/-- "before the change it announces is committed": `BeforeSellingCoinsAllocated aid …` announces the
+    allocation AND the refund of auction `aid`; no coin may have left that auction's selling or
+    paying reserve in the same operation before the first listener is called -/
+def hookAfterPayout (effs : List Eff) : Option (Nat × Nat) :=
+  let rec go (pre : List Eff) : List Eff → Option (Nat × Nat)
+    | [] => none
+    | e :: rest =>
+      match e with
+      | .hook 0 "BeforeSellingCoinsAllocated" (a :: _) =>
+        match a.toNat? with
+        | some aid =>
+          let n := (pre.filter (fun x => match x with
+            | .xfer t => t.src == Addr.sell aid || t.src == Addr.pay aid
+            | _ => false)).length
+          if n > 0 then some (aid, n) else go (pre ++ [e]) rest
+        | none => go (pre ++ [e]) rest
+      | _ => go (pre ++ [e]) rest
+  go [] effs
+
 def checkHooks (h : HCtx) (c : Obs) : CM Unit := do
   let b := c.b
   let hs := b.hooks
   if hs.isEmpty then return
   count "C17" "hook"
+  match hookAfterPayout b.effs with
+  | some (aid, n) =>
+    viol "C17" "hook-after-commit" s!"`{b.opLine}`: BeforeSellingCoinsAllocated of auction {aid} was called after {n} transfers out of its reserves"
+  | none => pure ()
   let n := h.listeners
   let fired := h.failhooks.filter (fun f => f.2 < n && hs.any (fun x => x.1 == f.2 && x.2.1 == f.1))
   match fired with
